@@ -590,3 +590,26 @@ pub fn id_relation_sequences(len: usize) -> Vec<(String, Vec<Inst>)> {
     }
     out
 }
+
+
+/// A well-formed module of K type declarations %1..%K (distinct, mostly unsupported widths; the middle one 16 bit, the
+/// last one 64 bit), constants of the last and the middle type, and a function with a value of the last type and a
+/// switch on it: ids dense below the header bound, more words than ids.
+pub fn dense_module(k: u32) -> Vec<u32> {
+    use crate::model::{enc, header};
+    let mut words = header(0x0001_0300, 0, k + 10);
+    for i in 1..=k {
+        let w = if i == k { 64 } else if i == k / 2 { 16 } else { 1000 + i };
+        words.extend(enc(&Inst::new("TypeInt", None, Some(i), vec![Arg::Lit32(w), Arg::Lit32(0)])));
+    }
+    words.extend(enc(&Inst::new("Constant", Some(k), Some(k + 1), vec![Arg::Lit64(0x1_0000_0002)])));
+    words.extend(enc(&Inst::new("Constant", Some(k / 2), Some(k + 2), vec![Arg::Lit32(0xFFFF)])));
+    words.extend(enc(&Inst::new("Function", Some(k - 1), Some(k + 6), vec![Arg::Mask("FunctionControl", 0), Arg::IdRef(k - 2)])));
+    words.extend(enc(&Inst::new("Label", None, Some(k + 4), vec![])));
+    words.extend(enc(&Inst::new("Undef", Some(k), Some(k + 3), vec![])));
+    words.extend(enc(&Inst::new("Switch", None, None, vec![Arg::IdRef(k + 3), Arg::IdRef(k + 4), Arg::Lit64(5), Arg::IdRef(k + 5)])));
+    words.extend(enc(&Inst::new("Label", None, Some(k + 5), vec![])));
+    words.extend(enc(&Inst::new("Return", None, None, vec![])));
+    words.extend(enc(&Inst::new("FunctionEnd", None, None, vec![])));
+    words
+}
